@@ -41,8 +41,8 @@ INSTANCE LedgerBlock WITH
   DevUnit <- BMul(BFromNat(20), B1e8), DevPct <- TDevPct, DevAddr <- TDevAddr, MintAmt <- TMintAmt,
   Deviations <- TDeviations
 
-VARIABLES l, cur, hist, txh, nIss
-vars == <<l, cur, hist, txh, nIss>>
+VARIABLES l, cur, hist, txh, nIss, dig
+vars == <<l, cur, hist, txh, nIss, dig>>
 
 \* ------------------------------------------------------------------ adaptors
 ObsBal(o) == [a \in TAddrs |-> [t \in TAssets |-> o[a][t]]]
@@ -113,7 +113,7 @@ Compare(S, res, in, ob, hist2) ==
   IN  balIss \cup outIss \cup toIss \cup holdIss \cup relIss \cup wIss \cup snapIss \cup syncIss \cup mintIss
 
 \* ------------------------------------------------------------------ behaviour
-Init == /\ l = 1 /\ cur = InitState /\ hist = EmptyFn /\ txh = {} /\ nIss = 0
+Init == /\ l = 1 /\ cur = InitState /\ hist = EmptyFn /\ txh = {} /\ nIss = 0 /\ dig = EmptyFn
 
 Report(line, iss) == \A x \in iss : PrintT("ISSUE " \o ToJson(<<line, x[1], ToString(x[2])>>))
 
@@ -121,7 +121,7 @@ StepStart ==
   /\ Tr[l].ev = "Start"
   /\ Assert(Tr[l].sched = Hdr.sched /\ Tr[l].assets = Hdr.assets /\ Tr[l].addrs = Hdr.addrs /\ Tr[l].avgPeriod = Hdr.avgPeriod,
             "all runs in one trace file must share schedule and universe")
-  /\ cur' = InitState /\ hist' = EmptyFn /\ txh' = {} /\ UNCHANGED nIss
+  /\ cur' = InitState /\ hist' = EmptyFn /\ txh' = {} /\ dig' = EmptyFn /\ UNCHANGED nIss
 
 StepBlock ==
   /\ Tr[l].ev = "Block"
@@ -142,9 +142,14 @@ StepBlock ==
          issM == resM.iss \cup Compare(cur, resM, in, ob, hist2)
          cacheExplains == useCache /\ issM = {}
          res == IF cacheExplains THEN resM ELSE resH
-         iss == IF cacheExplains
+         \* C12: rates once recorded for a height never change (digest per height of all pn_rate rows)
+         immIss == IF \E x \in DOMAIN dig : x \notin DOMAIN ob.rateDigests \/ ob.rateDigests[x] # dig[x]
+                   THEN {<<"C12", <<"rates recorded for an earlier height changed or disappeared", in.h,
+                                   {x \in DOMAIN dig : x \notin DOMAIN ob.rateDigests \/ ob.rateDigests[x] # dig[x]}>>>>} ELSE {}
+         iss0 == IF cacheExplains
                 THEN {<<"C09", <<"conversion priced with an averaging window that depends on when the process was started (reload by height after a restart)", in.h>>>>}
                 ELSE issH
+         iss == iss0 \cup immIss
          \* continue from the observed state
          nxt == [res.S EXCEPT !.bal = ObsBal(ob.bal),
                               !.holding = cur.holding \o [i \in 1..Len(ob.holding) |-> [hash |-> ob.holding[i].hash, h |-> ob.holding[i].h]],
@@ -152,17 +157,17 @@ StepBlock ==
                               !.snapCur = IF ob.snapChanged THEN ObsBal(ob.snapCur) ELSE cur.snapCur,
                               !.snapPast = IF ob.snapChanged THEN ObsBal(ob.snapPast) ELSE cur.snapPast]
      IN  /\ Report(l, iss)
-         /\ cur' = nxt /\ hist' = hist2 /\ txh' = txh2
+         /\ cur' = nxt /\ hist' = hist2 /\ txh' = txh2 /\ dig' = ob.rateDigests
          /\ nIss' = nIss + Cardinality(iss)
 
 StepRestart ==      \* clean stop + start: everything held only in memory is gone
   /\ Tr[l].ev = "Restart"
   /\ cur' = [cur EXCEPT !.cache = EmptyCache]
-  /\ UNCHANGED <<hist, txh, nIss>>
+  /\ UNCHANGED <<hist, txh, nIss, dig>>
 
 StepOther ==
   /\ Tr[l].ev \notin {"Start", "Block", "Restart"}
-  /\ UNCHANGED <<cur, hist, txh, nIss>>
+  /\ UNCHANGED <<cur, hist, txh, nIss, dig>>
 
 Next == /\ l <= Len(Tr)
         /\ (StepStart \/ StepBlock \/ StepRestart \/ StepOther)
